@@ -36,7 +36,8 @@ BP_CLASSES = [["asqas03", "asqas08", "asqas20"],
 TSP_CLASSES = [["burma14", "cn11", "gr17", "gr21"],           # int16, tiny
                ["ulysses16", "ulysses22"],                    # int32, geo
                ["bayg29", "fri26", "gr24", "dantzig42"],      # int16, medium
-               ["att48", "berlin52", "hk48", "gr48"]]         # int32, medium
+               ["att48", "berlin52", "hk48", "gr48"],         # int32, medium
+               ["gr96", "gr137"]]                  # geographic, larger
 ATSP_CLASSES = [["br17", "ftv33", "ftv35"], ["p43", "ry48p", "ft53"],
                 ["gr17", "burma14", "bays29"]]
 # from ten teams upwards the earliest-slot decoding of short runs leaves days
